@@ -61,7 +61,24 @@ func reservePort() (int, func(), error) {
 	return got.(*syscall.SockaddrInet4).Port, func() { syscall.Close(fd) }, nil
 }
 
+// start opens the endpoints of one KDC; the UDP port of the number obtained from TCP may be taken by an unrelated socket
+// (an ephemeral source port), in which case another number is tried
 func (es *endpointSet) start(b c12Beh) error {
+	var err error
+	for try := 0; try < 20; try++ {
+		n := len(es.closers)
+		if err = es.startOnce(b); err == nil {
+			return nil
+		}
+		for _, c := range es.closers[n:] {
+			c()
+		}
+		es.closers = es.closers[:n]
+	}
+	return err
+}
+
+func (es *endpointSet) startOnce(b c12Beh) error {
 	var port int
 	var tcpL net.Listener
 	if b.TCP == "refuses" {
@@ -81,6 +98,15 @@ func (es *endpointSet) start(b c12Beh) error {
 		es.closers = append(es.closers, func() { l.Close() })
 	}
 	addr := fmt.Sprintf("127.0.0.1:%d", port)
+	var udpConn net.PacketConn
+	if b.UDP != "refuses" {
+		u, err := net.ListenPacket("udp", addr)
+		if err != nil {
+			return err
+		}
+		udpConn = u
+		es.closers = append(es.closers, func() { u.Close() })
+	}
 	es.addrs = append(es.addrs, addr)
 	errReply := func(code int32) []byte {
 		e := messages.NewKRBError(messagesPrincipal("krbtgt", "C12.TEST.GOKRB5"), "C12.TEST.GOKRB5", code, "scripted")
@@ -142,12 +168,8 @@ func (es *endpointSet) start(b c12Beh) error {
 			}
 		}()
 	}
-	if b.UDP != "refuses" {
-		u, err := net.ListenPacket("udp", addr)
-		if err != nil {
-			return err
-		}
-		es.closers = append(es.closers, func() { u.Close() })
+	if udpConn != nil {
+		u := udpConn
 		go func() {
 			buf := make([]byte, 65536)
 			for {
